@@ -12,6 +12,7 @@ import (
 	"path/filepath"
 	"strings"
 	"sync"
+	"time"
 
 	"github.com/coredhcp/coredhcp/config"
 	"github.com/coredhcp/coredhcp/handler"
@@ -24,6 +25,7 @@ import (
 	"verifmc/pkt"
 	"verifmc/reg"
 	"verifmc/srv"
+	"verifmc/verifsched"
 )
 
 func init() {
@@ -81,6 +83,11 @@ func h4(beh string, tag byte) handler.Handler4 {
 		case "modify":
 			add(resp, trailOf4(resp))
 			return resp, false
+		case "slow":
+			// a handler that takes an hour (virtual time under the cooperative scheduler)
+			verifsched.Advance(time.Hour)
+			add(resp, trailOf4(resp))
+			return resp, false
 		case "replace":
 			n, _ := dhcpv4.New()
 			n.OpCode = dhcpv4.OpcodeBootReply
@@ -130,6 +137,10 @@ func h6(beh string, tag byte) handler.Handler6 {
 		case "pass":
 			return resp, false
 		case "modify":
+			add(resp, trailOf6(resp))
+			return resp, false
+		case "slow":
+			verifsched.Advance(time.Hour)
 			add(resp, trailOf6(resp))
 			return resp, false
 		case "replace":
@@ -301,7 +312,7 @@ func eval(r *ev.Run, c Case) {
 		expCalls = append(expCalls, wantTags[i])
 		stop := false
 		switch it.Beh {
-		case "modify", "replace":
+		case "modify", "replace", "slow":
 			expTrail = append(expTrail, wantTags[i])
 		case "stop", "replacestop":
 			expTrail = append(expTrail, wantTags[i])
@@ -373,14 +384,14 @@ func eval(r *ev.Run, c Case) {
 	class += fmt.Sprintf("/calls=%d/sent=%v", len(gotCalls), sent)
 }
 
-var behs = []string{"pass", "modify", "replace", "stop", "replacestop", "stopnil"}
+var behs = []string{"pass", "modify", "replace", "stop", "replacestop", "stopnil", "slow"}
 
 func run(r *ev.Run) {
 	maxLen := 4
 	if !r.Quick() {
 		maxLen = 5
 	}
-	r.Rule(fmt.Sprintf("E3: all chains of length 0..%d over 6 handler behaviours {pass,modify,replace,stop,replace+stop,stop-with-nil} x protocol {4,6}, built through plugins.LoadPlugins and run through HandleMsg4/6; the same chains up to length %d loaded from generated YAML through config.Load; all placements of v4-only/v6-only/dual/unknown/failing-setup plugins in chains of length <=3. Reference interpreter from the property text. Class = proto/len/yaml/#calls/sent.", maxLen, map[bool]int{true: 2, false: 5}[r.Quick()]))
+	r.Rule(fmt.Sprintf("E3: all chains of length 0..%d over 7 handler behaviours {pass,modify,replace,stop,replace+stop,stop-with-nil,modify after an hour of (virtual) processing time} x protocol {4,6}, built through plugins.LoadPlugins and run through HandleMsg4/6; the same chains up to length %d loaded from generated YAML through config.Load; all placements of v4-only/v6-only/dual/unknown/failing-setup plugins in chains of length <=3. Reference interpreter from the property text. Class = proto/len/yaml/#calls/sent.", maxLen, map[bool]int{true: 2, false: 5}[r.Quick()]))
 	r.Assume("server.Start is executed only in the loopback binding run (one listener per protocol); multicast/interface-bound listeners are not opened")
 	var rec func(prefix []Item, n int, f func([]Item))
 	rec = func(prefix []Item, n int, f func([]Item)) {
